@@ -48,13 +48,13 @@ SourceFails(s, c, bounds, post) ==
 
 CaseFails(c) ==
   LET encs == Encs(c) pre == Bytes(c.pre) post == Bytes(c.post)
-      full == pre \o FlattenSeq(encs) \o post
+      full == pre \o Flatten(encs) \o post
       bounds == Bounds(encs, 1, Len(pre))
       encsv == EncsV(c)
       boundsv == Bounds(encsv, 1, Len(pre)) IN
      UNION {SinkFails(c.sinks[i], full, bounds) : i \in 1..Len(c.sinks)}
   \cup UNION {SourceFails(c.sources[i], c, boundsv, post) : i \in 1..Len(c.sources)}
-  \cup (IF Bytes(c.peer) = pre \o FlattenSeq(encsv) \o post THEN {} ELSE {"harness_input_mismatch"})
+  \cup (IF Bytes(c.peer) = pre \o Flatten(encsv) \o post THEN {} ELSE {"harness_input_mismatch"})
   \cup (IF \A k \in 1..Len(c.msgs) : WellTyped(Schemas[c.msgs[k].sid], ExpandV(c.msgs[k].value)) THEN {} ELSE {"harness_value_not_well_typed"})
 
 VARIABLE ci
